@@ -67,8 +67,9 @@ set_option maxRecDepth 100000 in
 /-- every send into the loop's report / timeout queues sits next to a receive on `done` in the same function -/
 theorem producers_guarded :
     accesses.all (fun a =>
-      !(a.kind == "send" && loopQueues.contains (a.typ, a.field)) ||
-      accesses.any (fun b => b.root == a.root && b.fn == a.fn && b.typ == "pfcp.PfcpServer" && b.field == "done" && b.kind == "recv")) = true := by
+      !(isSend a.kind && loopQueues.contains (a.typ, a.field)) ||
+      (a.kind == "selsend" &&
+       accesses.any (fun b => b.root == a.root && b.fn == a.fn && b.typ == "pfcp.PfcpServer" && b.field == "done" && b.kind == "selrecv"))) = true := by
   decide
 
 set_option maxRecDepth 100000 in
@@ -78,7 +79,7 @@ set_option maxRecDepth 100000 in
 theorem no_close_under_senders :
     accesses.all (fun a =>
       !(a.kind == "close") || (a.typ, a.field) == ("pfcp.PfcpServer", "rcvCh") ||
-      accesses.all (fun b => !(b.typ == a.typ && b.field == a.field && b.kind == "send") || b.root == a.root)) = true := by
+      accesses.all (fun b => !(b.typ == a.typ && b.field == a.field && isSend b.kind) || b.root == a.root)) = true := by
   decide
 
 /-! ### the stop protocol as a transition system -/
